@@ -7,6 +7,8 @@ mod gen;
 #[cfg(feature = "std-easy")]
 mod io;
 mod json;
+mod obj;
+mod tgt;
 mod reader;
 mod rng;
 mod scn;
@@ -84,6 +86,53 @@ impl Scenario for C12Scn {
             || p("hint.twice_different")
     }
 }
+
+macro_rules! bind_scn {
+    ($name:ident, $tag:literal, $m:ident, $gen:path, $nt:expr) => {
+        pub struct $name;
+        impl Scenario for $name {
+            type Op = $m::Op;
+            fn tag(&self) -> &'static str {
+                $tag
+            }
+            fn generate(&self, seed: u64) -> Vec<$m::Op> {
+                $gen(seed)
+            }
+            fn execute(&self, ops: &[$m::Op], verbose: bool) -> Outcome {
+                $m::execute(ops, verbose)
+            }
+            fn op_to_json(&self, op: &$m::Op) -> J {
+                op.to_json()
+            }
+            fn op_from_json(&self, j: &J) -> Result<$m::Op, String> {
+                $m::Op::from_json(j)
+            }
+            fn simplify(&self, op: &$m::Op) -> Vec<$m::Op> {
+                op.simplify()
+            }
+            fn nontrivial(&self, out: &Outcome) -> bool {
+                let p = |k: &str| out.probes.get(k).copied().unwrap_or(0);
+                let f: fn(&dyn Fn(&str) -> u64) -> bool = $nt;
+                f(&p)
+            }
+        }
+    };
+}
+
+// C11: at least one in-place overwrite whose destination previously held
+// longer content, or at least one out-of-contract constructor call.
+bind_scn!(C11Scn, "c11", obj, obj::generate_c11, |p| p("obj.overwrite_longer_prev") > 0
+    || p("obj.ctor_refused") > 0
+    || p("obj.ctor_out_of_contract_returned") > 0);
+// C15: at least two conversions with a previously used destination, or a
+// refused narrowing.
+bind_scn!(C15Scn, "c15", obj, obj::generate_c15, |p| (p("conv.dirty_destination") > 0
+    && p("conv.lossless") + p("conv.lossy") >= 2)
+    || p("conv.narrow_refused") > 0);
+// C17: a re-initialisation after which a missing clear would be observable
+// (the previous hash had a symbol position set that the new one has not), or
+// a position array rebuilt over earlier content.
+bind_scn!(C17Scn, "c17", tgt, tgt::generate, |p| p("tgt.reinit_stale_bits_possible") > 0 || p("pa.reinit") > 0);
 
 #[cfg(feature = "std-easy")]
 pub struct IoScn;
@@ -208,6 +257,9 @@ fn replay_cmd(path: &str) -> i32 {
     let r = match tag.as_str() {
         "c03" => scn::replay(&C03Scn, &doc),
         "c12" => scn::replay(&C12Scn, &doc),
+        "c11" => scn::replay(&C11Scn, &doc),
+        "c15" => scn::replay(&C15Scn, &doc),
+        "c17" => scn::replay(&C17Scn, &doc),
         #[cfg(feature = "std-easy")]
         "io" => scn::replay(&IoScn, &doc),
         t => Err(format!("unknown scenario {}", t)),
@@ -230,7 +282,9 @@ fn replay_cmd(path: &str) -> i32 {
 
 fn main() {
     // Panics inside guarded regions are expected outcomes; keep stderr quiet.
-    std::panic::set_hook(Box::new(|_| {}));
+    if std::env::var_os("FFSIM_SHOW_PANICS").is_none() {
+        std::panic::set_hook(Box::new(|_| {}));
+    }
     let args: Vec<String> = std::env::args().collect();
     if let Err(e) = words::verify() {
         eprintln!("trigger word table invalid: {}", e);
@@ -240,6 +294,9 @@ fn main() {
         Some("run") => match arg(&args, "--scenario") {
             Some("c03") => run_cmd(&C03Scn, &args),
             Some("c12") => run_cmd(&C12Scn, &args),
+            Some("c11") => run_cmd(&C11Scn, &args),
+            Some("c15") => run_cmd(&C15Scn, &args),
+            Some("c17") => run_cmd(&C17Scn, &args),
             #[cfg(feature = "std-easy")]
             Some("io") => run_cmd(&IoScn, &args),
             s => {
@@ -250,6 +307,9 @@ fn main() {
         Some("dump") => match arg(&args, "--scenario") {
             Some("c03") => dump_cmd(&C03Scn, &args),
             Some("c12") => dump_cmd(&C12Scn, &args),
+            Some("c11") => dump_cmd(&C11Scn, &args),
+            Some("c15") => dump_cmd(&C15Scn, &args),
+            Some("c17") => dump_cmd(&C17Scn, &args),
             #[cfg(feature = "std-easy")]
             Some("io") => dump_cmd(&IoScn, &args),
             s => {
